@@ -126,17 +126,31 @@ def c07_r3(ctx):
             bad = t
     ctx.ob(f, bool(res["normal"]) and bad is None, "every path ends with exactly one add_document, after all deletions", detail=fmt(bad) if bad else "")
     uf = prog.method("writing.IndexWriter", "_unique_fields", inherited=False)
-    comps = [norm.canon(n) for n in ast.walk(uf.node) if isinstance(n, ast.ListComp)]
-    ctx.ob(uf, any("field.unique" in c and "name in fields" in c for c in comps), "unique fields = schema fields with .unique that are present in the call",
-           detail=str(comps))
+    comps = [n for n in ast.walk(uf.node) if isinstance(n, (ast.ListComp, ast.GeneratorExp, ast.SetComp))]
+    fparam = uf.params[1] if len(uf.params) > 1 else "fields"
+
+    def _uf_ok(c):
+        # [name for name, field in self.schema.items() if name in <fields> and field.unique], whatever the variables are called
+        if len(c.generators) != 1:
+            return False
+        g_ = c.generators[0]
+        if norm.canon(g_.iter) != "self.schema.items()" or not (isinstance(g_.target, ast.Tuple) and len(g_.target.elts) == 2
+                                                               and all(isinstance(e_, ast.Name) for e_ in g_.target.elts)):
+            return False
+        nm_, fo_ = g_.target.elts[0].id, g_.target.elts[1].id
+        atoms_ = set(norm.canon(a_) for t_ in g_.ifs for pol_, a_ in guards.atoms(t_, "T") if pol_ == "T")
+        return norm.canon(c.elt) == nm_ and "(%s in %s)" % (nm_, fparam) in atoms_ and "%s.unique" % fo_ in atoms_
+    ctx.ob(uf, any(_uf_ok(c) for c in comps), "unique fields = schema fields with .unique that are present in the call",
+           detail=str([norm.canon(c) for c in comps]))
     fu = prog.method("searching.Searcher", "_find_unique", inherited=False)
     ctx.saw(fu)
     # a loop or a comprehension over `uniques` whose body / element performs ONE lookup with exactly that pair
     sites = []
+    uparam = fu.params[1] if len(fu.params) > 1 else "uniques"
     for n in ast.walk(fu.node):
-        if isinstance(n, ast.For) and norm.canon(n.iter) == "uniques":
+        if isinstance(n, ast.For) and norm.canon(n.iter) == uparam:
             sites.append((n.target, n))
-        elif isinstance(n, (ast.GeneratorExp, ast.ListComp, ast.SetComp)) and len(n.generators) == 1 and norm.canon(n.generators[0].iter) == "uniques":
+        elif isinstance(n, (ast.GeneratorExp, ast.ListComp, ast.SetComp)) and len(n.generators) == 1 and norm.canon(n.generators[0].iter) == uparam:
             sites.append((n.generators[0].target, n.elt))
     ok = False
     if len(sites) == 1:
